@@ -1,10 +1,11 @@
 """C20 - independent trees can be used from different threads concurrently."""
 import os
+import random
 import subprocess
 
 from hypothesis import strategies as st
 
-from .. import gens
+from .. import gens, model
 from ..core import Prop, Violation
 
 DOCS = [
@@ -38,8 +39,20 @@ KEYS = [b"a", b"b", b"k", b"K", b"x", b"new key", b"id", b"z"]
 MINIFY = [b'{ "a" : [1, 2 , 3.5] , /* c */ "b" : "x y" } // end', b'[ 1.25 , "a\\\\" , /* x */ 2 ]', b'"s" ']
 
 
+def generated_texts():
+    """texts from the shared document generator: every escape kind, surrogate pairs, control characters, numbers of every
+    spelling, long strings (print-buffer growth), BOM - so that both threads run through the rarely used code paths too"""
+    leaves = st.one_of(gens.scalars_text(strings=gens.utf8_strings(10)),
+                       gens.escapey_strings(12).map(lambda b: ["S", b]),
+                       st.integers(200, 700).map(lambda n: ["S", (b"long string \xc3\xa9 " * 40)[:n]]))
+    keys = st.one_of(gens.ascii_keys(4), gens.utf8_strings(3), st.sampled_from([b"a", b"A", b"k", b"K", b"x"]))
+    docs = gens.shaped_documents(leaves, keys, max_leaves=10)
+    return st.tuples(docs, st.integers(0, 2 ** 32 - 1), gens.chance(8)).map(
+        lambda t: (b"\xef\xbb\xbf" if t[2] else b"") + model.emit_text(t[0], random.Random(t[1])))
+
+
 def thread_program():
-    text = st.sampled_from(DOCS)
+    text = st.one_of(st.sampled_from(DOCS), st.sampled_from(DOCS), generated_texts())
     op = st.one_of(
         st.tuples(st.just("P"), st.integers(0, 7), st.integers(0, 3), st.integers(0, 1), st.just(0), text),
         st.tuples(st.just("P"), st.integers(0, 7), st.integers(0, 3), st.integers(0, 1), st.just(0), text),
@@ -81,19 +94,20 @@ class C20(Prop):
             "duplicate, compare, minify, edits (add/detach/replace/insert/set), JSON pointer get/find, patch generate/apply, merge patch "
             "apply/generate, sort, delete; never cJSON_GetErrorPtr / cJSON_InitHooks / setlocale. A driver built with gcc -fsanitize=thread "
             "(library and driver instrumented) runs every program alone (reference digest of all results) and then all of them concurrently "
-            "behind a barrier for 3 rounds. Oracle: no ThreadSanitizer report other than the documented global error position "
+            "behind a barrier for 3 rounds (the first one before anything else has used the library in the process), and finally 2-4 times in ONE thread with the calls of all programs interleaved in a drawn order (schedule owned by the harness, call granularity). Texts come from a fixed pool and from the shared document generator (all escape kinds, surrogate pairs, long strings, BOM). Oracle: no ThreadSanitizer report other than the documented global error position "
             "(suppression race:global_error) and every concurrent digest equals the solo digest. non-trivial = >= 2 threads that each "
             "execute a parse and a print of a tree containing numbers; distinct by case hash")
     ASSUMPTIONS = ["the harness does not own the scheduler: race detection is happens-before based (both accesses must be executed, not interleaved), "
                    "order-dependent but race-free defects are visible only under the schedules the OS produces",
                    "only instrumented code is observed (libc internals are not)"]
-    REQUIRED_CLASSES = ["nontrivial", "threads>=4", "utils_ops"]
+    REQUIRED_CLASSES = ["nontrivial", "threads>=4", "utils_ops", "generated_text", "interleaved_schedules"]
 
     def budget(self, tier):
         return {"workers": 14, "examples": 45 if tier == "quick" else 1200}
 
     def strategy(self, tier):
-        return st.fixed_dictionaries({"threads": st.lists(thread_program(), min_size=2, max_size=6)})
+        return st.fixed_dictionaries({"threads": st.lists(thread_program(), min_size=2, max_size=6),
+                                      "schedules": st.lists(st.integers(0, 2 ** 31 - 1), min_size=2, max_size=4)})
 
     def run_case(self, lib, case, stats):
         driver = os.environ.get("VERIF_TSAN_DRIVER")
@@ -101,7 +115,7 @@ class C20(Prop):
         if not driver:
             raise RuntimeError("VERIF_TSAN_DRIVER not set")
         path = os.path.join(bdir, "tsan_case.%d.txt" % os.getpid())
-        lines = ["threads %d" % len(case["threads"]), "rounds 3"]
+        lines = ["threads %d" % len(case["threads"]), "rounds 3"] + ["schedule %d" % x for x in case.get("schedules", [])]
         prints = 0
         for tid, prog in enumerate(case["threads"]):
             for op in prog:
@@ -123,6 +137,9 @@ class C20(Prop):
             stats.cls("threads>=4")
         if any(o[0] == "U" for prog in case["threads"] for o in prog):
             stats.cls("utils_ops")
+        if any(o[0] == "P" and o[5] not in DOCS for prog in case["threads"] for o in prog):
+            stats.cls("generated_text")
+        stats.cls("interleaved_schedules", len(case.get("schedules", [])))
         if good >= 2:
             stats.cls("nontrivial")
             stats.nontriv(case, {"threads": nthr, "ops_per_thread": [len(t) for t in case["threads"]],
@@ -140,7 +157,7 @@ class C20(Prop):
         out = []
         if len(th) > 2:
             for i in range(len(th)):
-                out.append({"threads": th[:i] + th[i + 1:]})
+                out.append(dict(case, threads=th[:i] + th[i + 1:]))
         return out
 
 
